@@ -140,6 +140,8 @@ type World struct {
 	UserScr []byte
 	UserAdr string
 	Aux     Cloner // monitor-owned history state, forked with the world
+	widOff, reqOff uint64 // ids handed out to the requests of the block being assembled
+	prov           map[uint64]*sim.BtcBlock // blocks voted by earlier transactions of the block being assembled
 }
 
 // Cloner is implemented by monitor state that travels along a history.
@@ -274,6 +276,9 @@ func (w *World) BuildMsg(e Event) (msg sdk.Msg, commit func()) {
 		for i := 0; i < e.N; i++ {
 			b := w.refBlock(tip + 1 + uint64(i))
 			blocks[b.Height] = b
+			if e.Var == "" && w.prov != nil {
+				w.prov[b.Height] = b
+			}
 			hashes = append(hashes, b.Hash())
 		}
 		start := tip + 1
@@ -354,32 +359,48 @@ func (w *World) BuildMsg(e Event) (msg sdk.Msg, commit func()) {
 			w.Bot.Pending = w.Bot.Pending[n:]
 		}
 	case "tx:finalize":
+		// the oldest open batch whose latest candidate is in a voted block (or in a block voted
+		// by an earlier transaction of the block being assembled)
 		pids := make([]uint64, 0)
 		for pid, b := range w.Bot.Batches {
-			if b.Open && len(b.InBlock) > 0 {
+			if b.Open {
 				pids = append(pids, pid)
 			}
 		}
-		if len(pids) == 0 {
-			return nil, nil
-		}
 		sort.Slice(pids, func(i, j int) bool { return pids[i] < pids[j] })
-		pid := pids[0]
-		b := w.Bot.Batches[pid]
-		var ci int
-		var h uint64
-		for c, hh := range b.InBlock {
-			ci, h = c, hh
-		}
-		blk := w.Bot.Blocks[h]
-		pos := -1
-		for i, t := range blk.Txs {
-			if bytes.Equal(t, b.Txs[ci]) {
-				pos = i
+		for _, pid := range pids {
+			b := w.Bot.Batches[pid]
+			ci := len(b.Txs) - 1
+			var blk *sim.BtcBlock
+			if h, ok := b.InBlock[ci]; ok {
+				blk = w.Bot.Blocks[h]
+			} else {
+				hs := make([]uint64, 0, len(w.prov))
+				for h := range w.prov {
+					hs = append(hs, h)
+				}
+				sort.Slice(hs, func(i, j int) bool { return hs[i] < hs[j] })
+				for _, h := range hs {
+					for _, t := range w.prov[h].Txs {
+						if bytes.Equal(t, b.Txs[ci]) && blk == nil {
+							blk = w.prov[h]
+						}
+					}
+				}
 			}
+			if blk == nil {
+				continue
+			}
+			pos := -1
+			for i, t := range blk.Txs {
+				if bytes.Equal(t, b.Txs[ci]) {
+					pos = i
+				}
+			}
+			m := &bitcointypes.MsgFinalizeWithdrawal{Proposer: rel.Proposer, Pid: pid, Txid: sim.DSHA(b.Txs[ci]), BlockNumber: blk.Height, TxIndex: uint32(pos), IntermediateProof: blk.Proof(pos), BlockHeader: blk.Header}
+			return m, func() { b.Open = false }
 		}
-		m := &bitcointypes.MsgFinalizeWithdrawal{Proposer: rel.Proposer, Pid: pid, Txid: sim.DSHA(b.Txs[ci]), BlockNumber: h, TxIndex: uint32(pos), IntermediateProof: blk.Proof(pos), BlockHeader: blk.Header}
-		return m, func() { b.Open = false }
+		return nil, nil
 	case "tx:approve":
 		if len(w.Bot.Canceling) == 0 {
 			return nil, nil
@@ -410,8 +431,10 @@ func (w *World) ApplyReq(e Event) (commit func()) {
 	switch e.Kind {
 	case "req:withdraw":
 		var ids []uint64
+		base := w.Bot.NextWid + w.widOff
+		w.widOff += uint64(e.N)
 		for i := 0; i < e.N; i++ {
-			id := w.Bot.NextWid + uint64(i)
+			id := base + uint64(i)
 			addr := w.UserAdr
 			if e.Var == "bad-address" {
 				addr = "undecodable"
@@ -435,13 +458,17 @@ func (w *World) ApplyReq(e Event) (commit func()) {
 			w.Bot.Pending = nil
 		}
 	case "req:claim":
+		base := w.Bot.NextReq + w.reqOff
+		w.reqOff += uint64(e.N)
 		for i := 0; i < e.N; i++ {
-			el.NextLocking.Claims = append(el.NextLocking.Claims, &goattypes.ClaimRequest{Id: w.Bot.NextReq + uint64(i), Validator: w.ValKeys[0].EthAddr(), Recipient: common.BytesToAddress([]byte{0xcc})})
+			el.NextLocking.Claims = append(el.NextLocking.Claims, &goattypes.ClaimRequest{Id: base + uint64(i), Validator: w.ValKeys[0].EthAddr(), Recipient: common.BytesToAddress([]byte{0xcc})})
 		}
 		return func() { w.Bot.NextReq += uint64(e.N) }
 	case "req:unlock":
+		base := w.Bot.NextReq + w.reqOff
+		w.reqOff += uint64(e.N)
 		for i := 0; i < e.N; i++ {
-			el.NextLocking.Unlocks = append(el.NextLocking.Unlocks, &goattypes.UnlockRequest{Id: w.Bot.NextReq + uint64(i), Validator: w.ValKeys[0].EthAddr(),
+			el.NextLocking.Unlocks = append(el.NextLocking.Unlocks, &goattypes.UnlockRequest{Id: base + uint64(i), Validator: w.ValKeys[0].EthAddr(),
 				Recipient: common.BytesToAddress([]byte{0xee}), Token: common.Address{}, Amount: big.NewInt(1)})
 		}
 		return func() { w.Bot.NextReq += uint64(e.N) }
@@ -509,6 +536,8 @@ func (w *World) Run(b ABlock) *Result {
 		}
 	}
 	w.N.EL.ClearRequests()
+	w.widOff, w.reqOff = 0, 0
+	w.prov = map[uint64]*sim.BtcBlock{}
 	var commits []func()
 	var reqCommits []func()
 	var seqOff uint64
